@@ -70,6 +70,14 @@ Proof. reflexivity. Qed.
 Lemma dec_many_zero {A} (d : dec A) fuel bs : dec_many d fuel 0 bs = Ok ([], bs).
 Proof. destruct fuel; reflexivity. Qed.
 
+Lemma p_seq_length {A} (p : A -> bytes) (wf : A -> Prop) :
+  (forall a, wf a -> (1 <= length (p a))%nat) ->
+  forall xs, Forall wf xs -> (length xs <= length (p_seq p xs))%nat.
+Proof.
+  intros p_pos xs. induction 1 as [|x xs Hx _ IH]; cbn [p_seq length]; [lia|].
+  rewrite app_length. specialize (p_pos x Hx). lia.
+Qed.
+
 Section Arrays.
   Context {A B : Type} (d : dec B) (p : A -> bytes) (v : A -> B) (wf : A -> Prop).
   (* the element decoder inverts the element printer in front of any suffix ... *)
@@ -77,16 +85,10 @@ Section Arrays.
   (* ... and the printer emits at least one byte *)
   Hypothesis p_pos : forall a, wf a -> (1 <= length (p a))%nat.
 
-  Lemma p_seq_length xs : Forall wf xs -> (length xs <= length (p_seq p xs))%nat.
-  Proof using p_pos.
-    clear d_p. induction 1 as [|x xs Hx _ IH]; cbn [p_seq length]; [lia|].
-    rewrite app_length. specialize (p_pos x Hx). lia.
-  Qed.
-
   Lemma dec_many_print xs : Forall wf xs -> forall fuel rest, (length xs <= fuel)%nat ->
     dec_many d fuel (Z.of_nat (length xs)) (p_seq p xs ++ rest) = Ok (map v xs, rest).
-  Proof using d_p.
-    clear p_pos. induction 1 as [|x xs Hx _ IH]; intros fuel rest Hf.
+  Proof.
+    induction 1 as [|x xs Hx _ IH]; intros fuel rest Hf.
     - cbn [length p_seq map app]. apply dec_many_zero.
     - cbn [length] in Hf. destruct fuel as [|fuel]; [lia|].
       rewrite dec_many_unfold. cbn [length p_seq map].
@@ -103,7 +105,7 @@ Section Arrays.
     - destruct H as [Hall Hlen]. rewrite <- app_assoc. rewrite dec_i32_print by (unfold in_i32; lia).
       cbn [bind]. destruct (Z.of_nat (length l) <=? 0) eqn:E.
       + destruct l as [|x l]; [reflexivity|]. cbn [length] in E. lia.
-      + apply dec_many_print; [exact Hall|]. rewrite app_length. pose proof (p_seq_length l Hall). lia.
+      + apply dec_many_print; [exact Hall|]. rewrite app_length. pose proof (p_seq_length p wf p_pos l Hall). lia.
     - rewrite dec_i32_print by (unfold in_i32; lia). reflexivity.
   Qed.
 End Arrays.
@@ -724,6 +726,11 @@ Example ex_merge_brokers :
   Ok [ ([x74], [(0, 10, 1); (1, 11, 1); (2, 12, 1); (3, 13, 1)]); ([x75], [(0, 20, 2)]); ([x76], []) ].
 Proof. vm_compute. reflexivity. Qed.
 
+Example ex_merge_all :
+  merge_topics lop_to_offset lop_partition (concat ex_resps) [ ([x75], [ (5, 5, 5) ]) ] =
+  Ok [ ([x75], [(5, 5, 5); (0, 20, 2)]); ([x74], [(0, 10, 1); (1, 11, 1); (2, 12, 1); (3, 13, 1)]); ([x76], []) ].
+Proof. vm_compute. reflexivity. Qed.
+
 (* ---- group_scan: HashMap::insert, a later entry for the same topic replaces the earlier ---- *)
 
 Lemma group_scan_parts_ok ps : (forall p, In p ps -> exists v, get_offsets p = inl v) ->
@@ -965,7 +972,7 @@ Section ZArrays.
     intros H. unfold zread_array, zread_array_len. destruct xs as [l|]; cbn [p_array view_arr wf_array] in *.
     - destruct H as [Hall Hlen]. rewrite <- app_assoc. rewrite zread_i32_print by (unfold in_i32; lia).
       cbn [bind]. destruct (Z.of_nat (length l) <? 0) eqn:E; [lia|].
-      rewrite zread_many_eq. apply (dec_many_print d p v wf d_p); [exact Hall|].
+      rewrite zread_many_eq. apply (dec_many_print d p v wf d_p p_pos); [exact Hall|].
       rewrite app_length. pose proof (p_seq_length p wf p_pos l Hall). lia.
     - rewrite zread_i32_print by (unfold in_i32; lia). cbn [bind].
       change (-1 <? 0) with true. cbv iota. rewrite zread_many_eq. apply dec_many_zero.
@@ -1093,3 +1100,149 @@ Example ex_fetch_decode :
                        {| ft_topic := [x75]; ft_partitions := [ {| fp_partition := 7; fp_data := inl (3, []) |} ] |};
                        {| ft_topic := []; ft_partitions := [] |} ] |}.
 Proof. vm_compute. reflexivity. Qed.
+
+(* ================================================================================== *)
+(* 8. decode, then convert, then merge: printed content to result map                 *)
+(* ================================================================================== *)
+
+Lemma conv_vals_map_ok {W P V} (conv : P -> V + Z) (view : W -> P) (f : W -> V) ws :
+  (forall w, In w ws -> conv (view w) = inl (f w)) -> conv_vals conv (map view ws) = map f ws.
+Proof.
+  induction ws as [|w ws IH]; intros H; [reflexivity|]. cbn [map].
+  rewrite (conv_vals_cons conv (view w) (map view ws) (f w)) by (apply H; left; reflexivity).
+  rewrite IH by (intros q Hq; apply H; right; exact Hq). reflexivity.
+Qed.
+
+Lemma flat_map_ext_in' {A B} (f g : A -> list B) l : (forall a, In a l -> f a = g a) -> flat_map f l = flat_map g l.
+Proof.
+  induction l as [|a l IH]; intros H; [reflexivity|]. cbn [flat_map].
+  rewrite (H a (or_introl eq_refl)), IH by (intros b Hb; apply H; right; exact Hb). reflexivity.
+Qed.
+
+(* what topic t receives from a printed [TopicName [P]] body when partition p yields f p *)
+Definition printed_vals {P V} (f : P -> V) (t : bytes) (ts : option (list (w_topic P))) : list V :=
+  flat_map (fun wt => if bytes_eqb (view_str (wt_name wt)) t then map f (view_list (wt_partitions wt)) else [])
+           (view_list ts).
+
+Lemma merge_view_all {P Q V} (vp : P -> Q) (conv : Q -> V + Z) (pid : Q -> Z) (f : P -> V)
+      (ts : option (list (w_topic P))) m :
+  (forall t p, In t (view_list ts) -> In p (view_list (wt_partitions t)) -> conv (vp p) = inl (f p)) ->
+  exists m', merge_topics conv pid (view_arr (view_topic vp) ts) m = Ok m' /\
+             forall t, lookup t m' = lookup t m ++ printed_vals f t ts.
+Proof.
+  intros H.
+  assert (Hall : all_conv conv (view_arr (view_topic vp) ts)).
+  { intros t qs q Hin Hq. destruct ts as [l|]; [|destruct Hin]. cbn [view_arr view_list] in *.
+    apply in_map_iff in Hin. destruct Hin as [wt [Hwt Hin]]. unfold view_topic in Hwt. inversion Hwt; subst; clear Hwt.
+    specialize (H wt). destruct (wt_partitions wt) as [ps|]; [|destruct Hq]. cbn [view_arr view_list] in *.
+    apply in_map_iff in Hq. destruct Hq as [p [Hp Hq]]. subst q. exists (f p). apply H; assumption. }
+  destruct (C10_merge_all conv pid _ m Hall) as [m' [Hm' Hl]]. exists m'. split; [exact Hm'|].
+  intros t. rewrite Hl. f_equal. unfold printed_vals. destruct ts as [l|]; [|reflexivity].
+  cbn [view_arr view_list] in *. unfold occ. rewrite flat_map_concat_map, map_map, <- flat_map_concat_map.
+  apply flat_map_ext_in'. intros wt Hwt. unfold view_topic. cbn [fst snd].
+  destruct (bytes_eqb (view_str (wt_name wt)) t); [|reflexivity].
+  specialize (H wt). destruct (wt_partitions wt) as [ps|]; [|reflexivity]. cbn [view_arr view_list] in *.
+  apply conv_vals_map_ok. intros p Hp. apply H; assumption.
+Qed.
+
+(* ListOffsets: every printed (partition, offset, timestamp) with error 0 reaches its topic *)
+Theorem C10_list_offsets_end_to_end : forall r rest m, wf_list_offsets r ->
+  (forall t p, In t (view_list (wr_topics r)) -> In p (view_list (wt_partitions t)) -> wl_error p = 0) ->
+  exists tps m',
+    dec_list_offsets_resp (print_list_offsets r ++ rest) = Ok ((wr_corr r, tps), rest) /\
+    merge_topics lop_to_offset lop_partition tps m = Ok m' /\
+    forall t, lookup t m' =
+              lookup t m ++ printed_vals (fun p => (wl_partition p, wl_offset p, wl_timestamp p)) t (wr_topics r).
+Proof.
+  intros r rest m Hwf He. exists (view_arr (view_topic view_list_offsets_part) (wr_topics r)).
+  destruct (merge_view_all view_list_offsets_part lop_to_offset lop_partition
+              (fun p => (wl_partition p, wl_offset p, wl_timestamp p)) (wr_topics r) m) as [m' [Hm' Hl]].
+  { intros t p Ht Hp. apply C10_lop_to_offset_ok. apply (He t p Ht Hp). }
+  exists m'. split; [|split; [exact Hm'|exact Hl]].
+  rewrite (C10_list_offsets_decode r rest Hwf). reflexivity.
+Qed.
+
+(* Offsets v0: (partition, first offset of the list, or -1 when the list is empty/null) *)
+Theorem C10_offsets_end_to_end : forall r rest m, wf_offsets r ->
+  (forall t p, In t (view_list (wr_topics r)) -> In p (view_list (wt_partitions t)) -> wo_error p = 0) ->
+  exists tps m',
+    dec_offset_resp (print_offsets r ++ rest) = Ok ((wr_corr r, tps), rest) /\
+    merge_topics to_offset por_partition tps m = Ok m' /\
+    forall t, lookup t m' =
+              lookup t m ++ printed_vals (fun p => (wo_partition p, hd (-1) (view_ints (wo_offsets p)))) t (wr_topics r).
+Proof.
+  intros r rest m Hwf He. exists (view_arr (view_topic view_offsets_part) (wr_topics r)).
+  destruct (merge_view_all view_offsets_part to_offset por_partition
+              (fun p => (wo_partition p, hd (-1) (view_ints (wo_offsets p)))) (wr_topics r) m) as [m' [Hm' Hl]].
+  { intros t p Ht Hp. unfold to_offset, view_offsets_part. cbn [por_error por_partition por_offsets].
+    rewrite (He t p Ht Hp). change (from_protocol 0) with (@None Z). cbv iota.
+    destruct (view_ints (wo_offsets p)); reflexivity. }
+  exists m'. split; [|split; [exact Hm'|exact Hl]].
+  rewrite (C10_offsets_decode r rest Hwf). reflexivity.
+Qed.
+
+Example ex_list_offsets_end_to_end :
+  (forall t p, In t (view_list (wr_topics ex_list_offsets)) -> In p (view_list (wt_partitions t)) -> wl_error p = 0)
+  /\ (let* '(_, tps, _) := dec_list_offsets_resp (print_list_offsets ex_list_offsets) in
+      merge_topics lop_to_offset lop_partition tps [ ([x74; xc3; xa9], [ (9, 9, 9) ]) ])
+     = Ok [ ([x74; xc3; xa9], [ (9, 9, 9); (0, 9223372036854775807, -1); (2, 7, 1500000000000) ]) ].
+Proof.
+  split; [|vm_compute; reflexivity].
+  intros t p Ht Hp. cbn [ex_list_offsets wr_topics view_list] in Ht.
+  repeat (destruct Ht as [Ht|Ht]; [subst t; cbn [wt_partitions view_list] in Hp;
+            repeat (destruct Hp as [Hp|Hp]; [subst p; reflexivity|]); destruct Hp|]).
+  destruct Ht.
+Qed.
+
+(* ---- non-vacuity of C10_offsets_exchange_all: two brokers answer over a scripted network ---- *)
+Definition ex_resp_b : w_topics_resp w_list_offsets_part :=
+  {| wr_corr := 1;
+     wr_topics := Some [ {| wt_name := ex_name;
+                            wt_partitions := Some [ {| wl_partition := 1; wl_error := 0; wl_timestamp := 4;
+                                                       wl_offset := 8 |} ] |} ] |}.
+Definition ex_script (payload : bytes) : list ev_out :=
+  [OConn true; OWrote 1000; OData (p_i32 (Z.of_nat (length payload))); OData payload].
+Definition ex_st : st :=
+  {| script := ex_script (print_list_offsets ex_list_offsets) ++ ex_script (print_list_offsets ex_resp_b);
+     trace := []; anyq := []; hostq := []; fetchq := []; entryq := [];
+     cl := client_new [[x61]; [x62]]; env := ex_codecs |}.
+Definition ex_reqs : list (bytes * list (bytes * list (Z * Z))) :=
+  [ ([x61], [ ([x74; xc3; xa9], [ (0, -1); (2, -1) ]) ]); ([x62], [ ([x74; xc3; xa9], [ (1, -1) ]) ]) ].
+
+Example ex_exchanges : exists s',
+  exchanges (enc_list_offsets_req 1 []) dec_list_offsets_resp ex_reqs ex_st
+            [ snd (view_list_offsets ex_list_offsets); snd (view_list_offsets ex_resp_b) ] s'.
+Proof.
+  eexists. unfold ex_reqs.
+  eapply exch_cons; [vm_compute; reflexivity|].
+  eapply exch_cons; [vm_compute; reflexivity|].
+  apply exch_nil.
+Qed.
+Example ex_offsets_exchange :
+  fst (offsets_exchange (enc_list_offsets_req 1 []) dec_list_offsets_resp lop_to_offset lop_partition
+                        ex_reqs [] ex_st)
+  = Ok [ ([x74; xc3; xa9], [ (0, 9223372036854775807, -1); (2, 7, 1500000000000); (1, 8, 4) ]) ].
+Proof. vm_compute. reflexivity. Qed.
+
+(* ================================================================================== *)
+Print Assumptions C10_metadata_decode.
+Print Assumptions C10_offsets_decode.
+Print Assumptions C10_list_offsets_decode.
+Print Assumptions C10_produce_decode.
+Print Assumptions C10_coordinator_decode.
+Print Assumptions C10_offset_fetch_decode.
+Print Assumptions C10_offset_commit_decode.
+Print Assumptions C10_to_offset_ok.
+Print Assumptions C10_lop_to_offset_ok.
+Print Assumptions C10_produce_confirm_ok.
+Print Assumptions C10_get_offsets_ok.
+Print Assumptions C10_merge_all.
+Print Assumptions C10_merge_brokers.
+Print Assumptions C10_offsets_exchange_all.
+Print Assumptions C10_group_scan_last.
+Print Assumptions C10_group_scan_all.
+Print Assumptions C10_group_scan_all_refuted.
+Print Assumptions C10_produce_confirms.
+Print Assumptions C10_fetch_passthrough.
+Print Assumptions C10_list_offsets_end_to_end.
+Print Assumptions C10_offsets_end_to_end.
